@@ -152,10 +152,13 @@ where
 			continue;
 		};
 
-		// If it's the first chunk, trim the whitespaces to determine whether it's valid JSON-RPC call.
-		if received_data.is_empty() {
+		received_data.extend_from_slice(data.chunk());
+
+		// Until the first non-whitespace byte has been received, look at the data received so far (not just
+		// this chunk) and trim the whitespaces to determine whether it's valid JSON-RPC call.
+		if is_single.is_none() {
 			let first_non_whitespace =
-				data.chunk().iter().enumerate().take(128).find(|(_, byte)| !byte.is_ascii_whitespace());
+				received_data.iter().enumerate().take(128).find(|(_, byte)| !byte.is_ascii_whitespace());
 
 			let skip = match first_non_whitespace {
 				Some((idx, b'{')) => {
@@ -166,13 +169,13 @@ where
 					is_single = Some(false);
 					idx
 				}
+				// Only whitespace so far, wait for more data.
+				None if received_data.len() < 128 => continue,
 				_ => return Err(HttpError::Malformed),
 			};
 
 			// ignore whitespace as these doesn't matter just makes the JSON decoding slower.
-			received_data.extend_from_slice(&data.chunk()[skip..]);
-		} else {
-			received_data.extend_from_slice(data.chunk());
+			received_data.drain(..skip);
 		}
 	}
 
